@@ -38,6 +38,15 @@ pub(crate) fn reset_user_files() {
     std::fs::create_dir_all(user_dir()).unwrap();
     for f in ["phonetic-candidate-selection.json", "autocorrect.json"] { let _ = std::fs::remove_file(user_file_path(f)); }
 }
+pub(crate) fn remove_key_from_store(key: &str) {
+    let p = user_file_path("phonetic-candidate-selection.json");
+    if let Ok(t) = std::fs::read_to_string(&p) {
+        if let Ok(mut m) = serde_json::from_str::<std::collections::BTreeMap<String, String>>(&t) {
+            m.remove(key);
+            let _ = std::fs::write(&p, serde_json::to_string(&m).unwrap());
+        }
+    }
+}
 pub(crate) fn remove_user_dir() { let _ = std::fs::remove_dir_all(user_dir()); }
 pub(crate) fn set_mtime(path: &str, secs: u64) {
     let f = std::fs::OpenOptions::new().write(true).open(path).unwrap();
